@@ -266,7 +266,7 @@ class Skedder(object):
                     for i in range(len(ready)): #attempt to run each ready tasker
                         tasker, retime, period = ready.popleft() #pop it off
 
-                        if retime > stamp: #not time yet
+                        if round(retime - stamp, 9) > 0.0: #not time yet (1 ns tolerance for float accumulation)
                             ready.append((tasker, retime, period)) #reappend it
                             status = tasker.status
 
